@@ -100,6 +100,10 @@ AtomMatches(C, n, a) ==
             LET b == C.lib[m[2]].atoms[m[3] + 1] IN
             IF C.allAtom THEN n.el = b.el /\ n.chg = b.ch ELSE n.name = b.el
   /\ (a.a # <<>> => BindAttrs(a.a, AtomDialect) \subseteq {<<p[1], p[2]>> : p \in ToSet(n.attrs)})
+  \* an atom written WITHOUT annotation has the defaults - not what an earlier atom of the fragment was given
+  /\ ((a.a = <<>> /\ C.allAtom /\ Len(n.fragid) = 1) =>
+         /\ BindAttrs(<<>>, AtomDialect) \subseteq {<<p[1], p[2]>> : p \in ToSet(n.attrs)}
+         /\ \A p \in ToSet(n.attrs) : p[1] = "chiral" => p[2] = "")
 
 (* a template bond keeps its order; a bond the result reports as aromatic (both ends aromatic) reads 1.5, *)
 (* and a bond written between two lower-case (aromatic) atoms may be reported kekulised                  *)
